@@ -269,7 +269,8 @@ func ruleMemoGuardField(c *report.Ctx) {
 		if pk == nil || pk.Path() != pkgUtils || f.Signature.Recv() == nil || len(f.Params) == 0 {
 			continue
 		}
-		if n := an.NamedOf(f.Signature.Recv().Type()); n == nil || n.Obj() != info.Obj() {
+		// pkScriptInfo's accessors, or those of a type of the package its cached strings were moved into
+		if n := an.NamedOf(f.Signature.Recv().Type()); n == nil || (n.Obj() != info.Obj() && !p.FreshStruct(pkgUtils, n.Obj().Name())) {
 			continue
 		}
 		k := 0
@@ -278,11 +279,33 @@ func ruleMemoGuardField(c *report.Ctx) {
 			if !ok {
 				return
 			}
-			fa, ok := st.Addr.(*ssa.FieldAddr)
-			if !ok || fa.X != ssa.Value(f.Params[0]) {
+			// the path of fields from the receiver to the place written (s.x, or s.std.x when the cached strings live in
+			// a part of the receiver that an inlined accessor of that part fills)
+			pathOf := func(addr ssa.Value) string {
+				path := ""
+				for i := 0; i < 4; i++ {
+					fa, ok := addr.(*ssa.FieldAddr)
+					if !ok {
+						return ""
+					}
+					name := an.FName(derefStructT(fa.X.Type()), fa.Field)
+					if path == "" {
+						path = name
+					} else {
+						path = name + "." + path
+					}
+					base := an.ResolveCell(fa.X)
+					if base == ssa.Value(f.Params[0]) {
+						return path
+					}
+					addr = base
+				}
+				return ""
+			}
+			filled := pathOf(st.Addr)
+			if filled == "" {
 				return
 			}
-			filled := an.FName(derefStructT(fa.X.Type()), fa.Field)
 			// guard: a comparison of a receiver field with "" / nil
 			var tested []string
 			for _, a := range p.GuardsOf(in) {
@@ -291,11 +314,9 @@ func ruleMemoGuardField(c *report.Ctx) {
 					if !ok || ld.Op != token.MUL {
 						continue
 					}
-					fa2, ok := ld.X.(*ssa.FieldAddr)
-					if !ok || fa2.X != ssa.Value(f.Params[0]) {
-						continue
+					if t := pathOf(ld.X); t != "" {
+						tested = append(tested, t)
 					}
-					tested = append(tested, an.FName(derefStructT(fa2.X.Type()), fa2.Field))
 				}
 			}
 			if len(tested) == 0 {
@@ -1368,13 +1389,26 @@ func ruleExternalScanAlwaysRuns(c *report.Ctx) {
 		if !ok || an.FName(derefStructT(fa.X.Type()), fa.Field) != "ExternalChildNum" {
 			return
 		}
+		gs := p.GuardsOf(st)
 		if k, isK := constInt(st.Val); !isK || k != 1 {
-			return
+			// the default chosen before the record is filled: `n := hint; if n == 0 { n = 1 }` — the way the 1 arrives
+			ph, isPhi := st.Val.(*ssa.Phi)
+			found := false
+			if isPhi {
+				for i, e := range ph.Edges {
+					if k, isK := constInt(e); isK && k == 1 && i < len(ph.Block().Preds) {
+						gs, found = p.GuardsOnEdge(ph.Block().Preds[i], ph.Block()), true
+					}
+				}
+			}
+			if !found {
+				return
+			}
 		}
 		n++
 		key := siteKey(f, "ExternalChildNum=1", n)
 		extra := ""
-		for _, a := range p.GuardsOf(st) {
+		for _, a := range gs {
 			if strings.Contains(a.Text, "InternalChildNum") {
 				extra = a.Text
 			}
